@@ -190,21 +190,30 @@ func checkC13(p *Prog, r *Report) {
 	// (3) cmd cache retrieve
 	rule = "E5.cmd-retrieve"
 	if cr := p.Fn("cache", "cmdCache.Retrieve"); cr != nil {
-		for _, ret := range returnsOf(cr) {
-			v := ret.Results[0]
+		for _, rc := range returnCases(cr, 0) {
+			v := rc.Vals[0]
 			if b, isC := constBool(v); isC && !b {
 				continue
 			}
+			// `tarOk && <-cmdResult` is a phi: the value on the edge plus the branch facts guarding it
 			fromTar, fromCmd := false, false
-			for x := range backSlice(v, SliceOpts{}) {
-				if isResultOfFn(x, readTar) {
-					fromTar = true
-				}
-				if u, ok := x.(*ssa.UnOp); ok && u.Op == token.ARROW {
-					fromCmd = true
+			look := func(v ssa.Value) {
+				for x := range backSlice(v, SliceOpts{}) {
+					if isResultOfFn(x, readTar) {
+						fromTar = true
+					}
+					if u, ok := x.(*ssa.UnOp); ok && u.Op == token.ARROW {
+						fromCmd = true
+					}
 				}
 			}
-			r.check(fromTar && fromCmd, rule, "result = tar result AND command result", p.pos(ret.Pos()), fnName(cr), "the returned value depends on readTar and on the command's exit", "cmdCache.Retrieve's result does not depend on both the tar reader and the retrieve command's exit status: a failed retrieve can be reported as a hit")
+			look(v)
+			for _, f := range rc.Facts {
+				if f.Val {
+					look(f.V)
+				}
+			}
+			r.check(fromTar && fromCmd, rule, "result = tar result AND command result", p.pos(rc.Site), fnName(cr), "every non-false return requires readTar's result and the command's exit to be true", "cmdCache.Retrieve's result does not depend on both the tar reader and the retrieve command's exit status: a failed retrieve can be reported as a hit")
 		}
 		// command result false on Wait error; no clean close of the pipe writer
 		for _, g := range withAnon(cr) {
